@@ -271,6 +271,10 @@ func ParsePipe(match string) ([]*PipeSelector, error) {
 	slice := make([]*PipeSelector, 0)
 	for _, match := range matches {
 		split := strings.Split(match, string(_PIPE))
+		// a pipe character inside a quoted key belongs to the key
+		if end := strings.LastIndexByte(match, _SQ); match[0] == _SQ && end > 0 {
+			split = append([]string{match[:end+1]}, strings.Split(match[end+1:], string(_PIPE))[1:]...)
+		}
 		key := split[0]
 		key = strings.TrimLeft(key, string(_SQ))
 		key = strings.TrimRight(key, string(_SQ))
